@@ -84,6 +84,8 @@ type job struct {
 	RemovedCwd bool
 	Allow      []int // exit codes the PROGRAM asks for (EXIT n, TRIGGER ERROR n)
 	Timeout    time.Duration
+	Env        []string // KEY=VALUE set for the child, "-KEY" = unset (HOME, TMPDIR …); "%d" in a value is the run's directory
+	Stdio      string   // shell redirections of the child's standard streams, e.g. "<&-" (stdin closed), ">&-", ">/dev/full"
 	SmallLimit bool   // run under smallLimitKB instead of the 3 GB limit (reproducers of endless nesting)
 	BlockOK    bool   // a timeout is the documented behaviour of the OS object (FIFO without writer), not a law
 	Probe      string // "json_rect": stdout must be a JSON array of objects with identical key lists
@@ -222,14 +224,30 @@ func execJob(j *job) result {
 	if j.RemovedCwd {
 		gone := filepath.Join(d, "gone")
 		must(os.Mkdir(gone, 0o755))
-		sh := j.limit() + `cd "$1" && rmdir "$1" && shift && exec "$@"`
+		sh := j.limit() + `cd "$1" && rmdir "$1" && shift && exec "$@" ` + j.Stdio
 		cmd = exec.Command("/bin/sh", append([]string{"-c", sh, "sh", gone, bin}, args...)...)
 		cmd.Dir = d
 	} else {
-		cmd = exec.Command("/bin/sh", append([]string{"-c", j.limit() + `exec "$@"`, "sh", bin}, args...)...)
+		cmd = exec.Command("/bin/sh", append([]string{"-c", j.limit() + `exec "$@" ` + j.Stdio, "sh", bin}, args...)...)
 		cmd.Dir = d
 	}
-	cmd.Env = []string{"HOME=" + d, "PATH=/usr/bin:/bin", "TZ=UTC", "LANG=C"}
+	env := map[string]string{"HOME": d, "PATH": "/usr/bin:/bin", "TZ": "UTC", "LANG": "C"}
+	for _, e := range j.Env {
+		if strings.HasPrefix(e, "-") {
+			delete(env, e[1:])
+		} else if i := strings.IndexByte(e, '='); i > 0 {
+			env[e[:i]] = strings.ReplaceAll(e[i+1:], "%d", d)
+		}
+	}
+	cmd.Env = nil
+	for _, k := range []string{"HOME", "PATH", "TZ", "LANG", "TMPDIR", "XDG_CONFIG_HOME", "CSVQ_REPOSITORY"} {
+		if v, ok := env[k]; ok {
+			cmd.Env = append(cmd.Env, k+"="+v)
+		}
+	}
+	if cmd.Env == nil {
+		cmd.Env = []string{"C19_EMPTY_ENV=1"}
+	}
 	var so, se bytes.Buffer
 	cmd.Stdout, cmd.Stderr = &so, &se
 	if j.HasStdin {
@@ -638,8 +656,10 @@ func printfEsc(b []byte) string {
 }
 
 func (j *job) usesFile(name string) bool {
+	base := strings.TrimSuffix(name, filepath.Ext(name))
+	re, err := regexp.Compile(`(^|[^A-Za-z0-9_.])(` + regexp.QuoteMeta(name) + `|` + regexp.QuoteMeta(base) + `)([^A-Za-z0-9_]|$)`)
 	for _, a := range j.argv() {
-		if strings.Contains(a, name) || strings.Contains(a, strings.TrimSuffix(name, filepath.Ext(name))) {
+		if err == nil && base != "" && re.MatchString(a) || strings.Contains(a, name) {
 			return true
 		}
 	}
@@ -689,6 +709,17 @@ func repro(j *job) string {
 	if j.HasStdin {
 		sb.WriteString("printf '" + printfEsc(j.Stdin) + "' | ")
 	}
+	for _, e := range j.Env {
+		if strings.HasPrefix(e, "-") {
+			sb.WriteString("env -u " + e[1:] + " ")
+		} else {
+			if strings.Contains(e, "%d") {
+				sb.WriteString("env \"" + strings.ReplaceAll(e, "%d", "$PWD") + "\" ")
+			} else {
+				sb.WriteString("env " + shq(e) + " ")
+			}
+		}
+	}
 	if j.SmallLimit {
 		// without the limit the same program meets the runtime's own stack limit (1 GB) after 10-20 s or more
 		sb.WriteString(fmt.Sprintf("ulimit -v %d && ", smallLimitKB))
@@ -696,6 +727,9 @@ func repro(j *job) string {
 	sb.WriteString("csvq")
 	for _, a := range j.argv() {
 		sb.WriteString(" " + shq(a))
+	}
+	if j.Stdio != "" {
+		sb.WriteString(" " + j.Stdio)
 	}
 	return sb.String()
 }
@@ -976,6 +1010,12 @@ func run(seed int64, n int, dir string, _ []string) {
 		det(5, outputCellJobs())
 		det(8, frameJobs())
 		det(5, jsonlQueryJobs())
+		det(6, emptyAggJobs())
+		det(3, subcommandJobs())
+		det(6, envJobs(false))
+		det(1, envJobs(true))
+		det(4, outerDmlJobs())
+		det(2, selectIntoJobs())
 		jobs = append(jobs, modeAndLikeJobs()...)
 		det(6, accessPathJobs(g, 0, true))
 		det(6, sizeJobs(g, 0, true))
